@@ -22,7 +22,7 @@ func init() {
 		Real:           []string{"standard.Conn: fill/Peek/peekBuffer/Skip/Release/handleTail/next/Read/ReadByte/ReadBinary/Malloc/WriteBinary/Flush/Write/ReadFrom", "linkBuffer nodes, mcache"},
 		Stub:           []string{"TCP (SimConn)", "clock (synctest)"},
 		Assumptions:    []string{"Read() on the connection releases earlier peeked slices (it calls Release internally); the peek-stability oracle treats it as a release point"},
-		RequiredProbes: []string{"fragments", "peek-cross-node", "big-peek", "eof-mid", "eof-with-data", "read-timeout", "zero-copy-write", "zero-copy-subslices", "backpressure", "write-error", "readfrom"},
+		RequiredProbes: []string{"fragments", "peek-cross-node", "big-peek", "eof-mid", "eof-with-data", "read-timeout", "zero-copy-write", "zero-copy-subslices", "backpressure", "write-error", "readfrom", "netwriter", "netwriter-zero-copy", "sink-write-error"},
 	}
 }
 
@@ -118,9 +118,15 @@ func pickN(tp *core.Tape, big bool) int {
 
 func RunC13(ep *core.Episode) {
 	tp := ep.Tape
+	// values 0..2 keep the meaning they had as a three-way pick (recorded tapes); 3: the generic buffered writer
+	bk := tp.Choose("bufsize", 4)
+	if bk == 3 {
+		runC13NetWriter(ep)
+		return
+	}
 	nw := core.NewNet(ep)
 	a, b := nw.NewPair("k")
-	bufSize := tp.Pick("bufsize", 4096, 8192, 65536)
+	bufSize := []int{4096, 8192, 65536}[bk]
 	big := tp.Chance("bigstream", 1, 12)
 	total := 200 + tp.Choose("total", 60000)
 	if big {
@@ -571,4 +577,115 @@ func (st *c13state) writeOp(tp *core.Tape, flushes *int, failAtFlush int) {
 		}
 		// ReadFrom leaves data buffered; model keeps it pending until the next flush
 	}
+}
+
+// ---- network.NewWriter: the buffered writer over a plain io.Writer (same node chain idea: copies below 4 KiB, links above) ----
+
+type c13sink struct {
+	data   []byte
+	writes int
+	failAt int // fail the failAt-th Write call (0: never)
+	short  bool
+}
+
+func (k *c13sink) Write(p []byte) (int, error) {
+	k.writes++
+	if k.failAt > 0 && k.writes == k.failAt {
+		if k.short && len(p) > 1 {
+			k.data = append(k.data, p[:len(p)/2]...)
+			return len(p) / 2, io.ErrShortWrite
+		}
+		return 0, fmt.Errorf("scripted sink error")
+	}
+	k.data = append(k.data, p...)
+	return len(p), nil
+}
+
+func runC13NetWriter(ep *core.Episode) {
+	tp := ep.Tape
+	ep.Probe("netwriter")
+	sink := &c13sink{}
+	if tp.Chance("sinkfail", 1, 4) {
+		sink.failAt = 1 + tp.Choose("sinkfailat", 12)
+		sink.short = tp.Choose("sinkshort", 2) == 1
+	}
+	w := network.NewWriter(sink)
+	var want []byte    // everything flushed successfully so far
+	var pending []byte // written since the last flush
+	var held [][]byte  // slices handed to WriteBinary: the caller keeps them unchanged until Flush
+	sizes := []int{1, 2, 10, 100, 1000, 3000, 4095, 4096, 4097, 5000, 8192, 20000}
+	nops := 3 + tp.Choose("nwops", 60)
+	tag := byte(1)
+	flushes := 0
+	for i := 0; i < nops && !ep.Failed(); i++ {
+		op := tp.Weighted("nwop", []int{4, 4, 2})
+		if i == nops-1 {
+			op = 2
+		}
+		switch op {
+		case 0:
+			n := sizes[tp.Choose("nwsz", len(sizes))]
+			buf, err := w.Malloc(n)
+			if err != nil || len(buf) != n {
+				ep.Fail("C13.write", "netwriter op #%d: Malloc(%d) returned %d bytes, err %v", i, n, len(buf), err)
+				return
+			}
+			d := core.PatternBytes(tag, n)
+			tag++
+			copy(buf, d)
+			pending = append(pending, d...)
+			ep.Logf("#%d Malloc(%d)", i, n)
+		case 1:
+			n := sizes[tp.Choose("nwsz", len(sizes))]
+			if tp.Chance("nwempty", 1, 12) {
+				n = 0
+			}
+			d := core.PatternBytes(tag, n)
+			tag++
+			held = append(held, d)
+			k, err := w.WriteBinary(d)
+			if err != nil || k != n {
+				ep.Fail("C13.write", "netwriter op #%d: WriteBinary(%dB) = %d, %v", i, n, k, err)
+				return
+			}
+			pending = append(pending, d...)
+			if n >= 4096 {
+				ep.Probe("netwriter-zero-copy")
+			}
+			ep.Logf("#%d WriteBinary(%d)", i, n)
+		case 2:
+			before := len(sink.data)
+			err := w.Flush()
+			flushes++
+			got := sink.data[before:]
+			ep.Logf("#%d Flush -> %v (%dB pending, %dB arrived)", i, err, len(pending), len(got))
+			if err == nil {
+				if !bytes.Equal(got, pending) {
+					ep.Fail("C13.write", "netwriter op #%d: Flush delivered %dB, written since the last flush %dB (first difference at %d)", i, len(got), len(pending), firstDiff(got, pending))
+					return
+				}
+			} else {
+				if sink.failAt == 0 || sink.writes < sink.failAt {
+					ep.Fail("C13.write", "netwriter op #%d: Flush failed without an injected error: %v", i, err)
+					return
+				}
+				ep.Fault("sink-write-error")
+				if !bytes.HasPrefix(pending, got) {
+					ep.Fail("C13.write", "netwriter op #%d: a failed Flush delivered %dB that are not a prefix of what was written (first difference at %d)", i, len(got), firstDiff(got, pending))
+					return
+				}
+			}
+			want = append(want, got...)
+			pending = pending[:0]
+			held = held[:0]
+		}
+	}
+	if !bytes.Equal(sink.data, want) {
+		ep.Fail("C13.write", "netwriter: the sink holds %dB, the flushes accounted for %dB", len(sink.data), len(want))
+		return
+	}
+	_ = held
+	ep.Sig(fmt.Sprintf("nw:%d:%d:%v", nops, flushes, sink.failAt > 0))
+	ep.Nontrivial = flushes > 0 && len(want) > 0
+	ep.Sample = map[string]interface{}{"netwriter_ops": nops, "flushes": flushes, "bytes": len(want), "sink_fault": sink.failAt > 0}
 }
